@@ -290,6 +290,20 @@ def check(ck):
                 may.add("ModuleNotFoundError")
             if nm == "getattr" and len(c.args) == 2:
                 may.add("AttributeError")
+    # the lookup asks the function for its version: whatever computing a version can raise
+    # (explicit raises of the package's own exception classes reachable from version()) can
+    # escape here too
+    if any(A.call_attr(c) == "version" for f in lookup_fns for c in f.calls()):
+        vroot = ck.repo.try_func("memento.MementoFunction.version")
+        if vroot is not None:
+            exc_classes = {c.name for c in ck.repo.module("exception").all_classes()} | {"FunctionNotFoundError"}
+            prev = ck.cg.reachable([vroot])
+            for q in prev:
+                fi_ = ck.cg.funcs[q]
+                for r_ in [n for n in A.walk_body(fi_.node) if isinstance(n, ast.Raise) and isinstance(n.exc, ast.Call)]:
+                    nm = A.call_attr(r_.exc)
+                    if nm in exc_classes:
+                        may.add(nm)
     # every function the lookup hands out comes from a fresh import walk followed by the version
     # check (a function remembered from an earlier lookup may have been edited or removed since)
     def fresh_resolver(f):
@@ -335,6 +349,8 @@ def check(ck):
         n = p
     sup = {"ModuleNotFoundError": {"ImportError", "Exception"}, "AttributeError": {"Exception"}, "ValueError": {"Exception"},
            "FunctionNotFoundError": {"ValueError", "Exception"}}
+    for c_ in ck.repo.module("exception").all_classes():
+        sup.setdefault(c_.name, set()).update({b.name for b in ck.repo.mro(c_)[1:]} | set(c_.base_exprs) | {"Exception"})
     esc = [e for e in may if e not in handlers and not (sup.get(e, set()) & set(handlers))]
     ck.ob(R3, fq.key(fcall, "lookup-failures-caught"), not esc and len(may) >= 3,
           "everything the lookup may raise (%s) falls back to an external reference" % sorted(may) if not esc else
